@@ -151,7 +151,15 @@ def cli_op(vata, toks, fa, fb, budget):
             return "out=E"
         return "rel=" + (",".join(f"{a}.{b}" for a, b in rel) or "-")
     tok = parse_dump(p.stdout, keep_names=op in ("load", "loadp", "loads", "witness", "red"))
-    return "out=E" if tok is None else "R=" + tok
+    if tok is None:
+        return "out=E"
+    extra_fields = ""
+    if op in ("union", "isect") and rep in ("expl", "expl_fa"):
+        # the file contents and the printed text themselves (hex), for the name-for-name comparison with the model of what the
+        # command line prints (Vata/CliPipeline.lean, Vata/NfaCliPipeline.lean)
+        hx = lambda t: t.encode().hex() or "00"
+        extra_fields = f" txa={hx(open(fa).read())} txb={hx(open(fb).read())} txo={hx(p.stdout)}"
+    return "R=" + tok + extra_fields
 
 
 def one_case(vata, case, tmp, k, budget):
